@@ -3,7 +3,7 @@ import SlogModel.Basic
 /-!
   M_redact — index-faithful model of `transform/tredactemail/redactemail.go`
   (`redactEmail1`, `redactFindEmailStart`, `redactFindEmailEnd`, `redactEmailCheckNumber`), with the
-  F-21 repair (numeric test also before a trailing dot).
+  F-21 repair (numeric test also before a trailing dot) and the F-22 repair (numeric = digits and dots only).
 
   The model computes the redacted *spans* `(start, end)` as well as the output the code builds
   incrementally; `Props/C14.lean` proves the output is the splice of the spans.
@@ -16,8 +16,11 @@ def isAddr (c : Nat) : Bool := isWord c || c = 46 || c = 45 || c = 95
 
 def redacted : Bytes := [82, 69, 68, 65, 67, 84, 69, 68]   -- "REDACTED"
 
-/-- `redactEmailCheckNumber`: ati least two bytes, first and last are digits -/
-def numLike (d : Bytes) : Bool :=
+/-- `redactEmailCheckNumber` (after the repair of F-22): not empty, digits and dots only — "purely numeric" -/
+def numLike (d : Bytes) : Bool := !d.isEmpty && d.all (fun c => isDigit c || c = 46)
+
+/-- the test before the repair: at least two bytes, first and last are digits -/
+def numLikeLegacy (d : Bytes) : Bool :=
   2 ≤ d.length && (match d.head? with | some c => isDigit c | none => false) &&
     (match d.getLast? with | some c => isDigit c | none => false)
 
